@@ -2,9 +2,10 @@ import Driver.Codec
 import Driver.OpsDirective
 import XdocModel.Lexer
 import XdocModel.Parser
+import XdocModel.CoreExamples
 /-! Protocol ops of the `Parser` cluster (lexer, labeller, grouping, chunk packaging). -/
 namespace Xdoc.Driver
-open Xdoc Py Parser
+open Xdoc Py Parser CoreExamples
 
 def decFacts (f : String) : ChunkFacts :=
   if f == "S" then .syntaxError else
@@ -28,6 +29,38 @@ def encPiece : Piece → String
 def failPointName : FailPoint → String
   | .label => "_label_docsrc_lines" | .group => "_group_labeled_lines" | .package => "_package_groups"
 
+def encChunk : Chunk → String
+  | .text ls => "T:" ++ encStrList ls
+  | .code src want => "C:" ++ encStrList src ++ ":" ++ encStrList want
+
+/-- google oracle field: `M` = MalformedDocstr, `X<name>` = another exception,
+    `B` followed by `tag;body` pairs joined by `|` (`B` alone = no block) -/
+def decGoogle (f : String) : Except PyExc (List (Str × Str)) :=
+  if f == "M" then .error .malformed
+  else if f.startsWith "X" then .error (.other (f.drop 1).toString)
+  else
+    let body := (f.drop 1).toString
+    if body.isEmpty then .ok []
+    else .ok ((body.splitOn "|").map fun p =>
+      match p.splitOn ";" with
+      | [t, b] => (decStr t, decStr b)
+      | _ => ([], []))
+
+/-- table fields `text=facts/facts/…` : the CPython facts of the code chunks of each text -/
+def decFactsTable (fields : List String) : List (Str × List ChunkFacts) :=
+  fields.map fun f =>
+    match f.splitOn "=" with
+    | [t, fs] => (decStr t, if fs.isEmpty then [] else (fs.splitOn "/").map decFacts)
+    | _ => ([], [])
+
+def encExc : PyExc → String
+  | .parseError fp e => "DoctestParseError:" ++ failPointName fp ++ ":" ++ e.name
+  | .malformed => "MalformedDocstr"
+  | .other n => "other:" ++ n
+
+def decStyleP (f : String) : Style :=
+  if f == "google" then .google else if f == "freeform" then .freeform else .auto
+
 def opsParser : List String → Option String
   | ["is_balanced", ls] => some (encBool (Lexer.isBalanced (decStrList ls)))
   | ["lex_end", ls] =>
@@ -47,6 +80,17 @@ def opsParser : List String → Option String
       | .error e => "error:" ++ e.name
       | .ok cs => "ok\t" ++ "\t".intercalate ((hackedSources cs).map fun h =>
           match h with | .ok s => "H" ++ encStr s | .error e => "E" ++ e.name))
+  | ["group", d] =>
+    some (match chunksOf (decStr d) with
+      | .error e => "error:" ++ e.name
+      | .ok cs => "ok\t" ++ "\t".intercalate (cs.map encChunk))
+  | "docexamples" :: style :: name :: d :: g :: table =>
+    let tbl := decFactsTable table
+    let env : Env := { parseDoc := parseDocOf (fun t => (tbl.lookup t).getD []), googleBlocks := fun _ => decGoogle g }
+    let r := docExamples env (decStyleP style) (decStr name) (decStr d)
+    some ("ex=" ++ encNatList (r.examples.map fun e => e.parts.length) ++ " warned=" ++ encBool r.warned ++
+          " escaped=" ++ (match r.escaped with | none => "none" | some e => encExc e) ++
+          " end=" ++ (match (genOf env (decStyleP style) (decStr name) (decStr d)).2 with | none => "none" | some e => encExc e))
   | "parse" :: d :: facts =>
     some (match parse (decStr d) (facts.map decFacts) with
       | .error (fp, e) => "error:" ++ failPointName fp ++ ":" ++ e.name
